@@ -190,6 +190,10 @@ class Abstractor:
             r = z3.If(ch[0], ch[1], ch[2])
             return r
         if k == z3.Z3_OP_UNINTERPRETED:
+            if not self.is_seq(t) and all(c.sort().eq(o.sort()) for c, o in zip(ch, t.children())):
+                # same signature after abstraction: keep the ORIGINAL symbol, so that applications with translated
+                # arguments stay congruent with applications whose arguments needed no translation
+                return d(*ch)
             f = self.fn(d.name(), *([c.sort() for c in ch] + [self.sort(t.sort())]))
             r = f(*ch)
             if self.is_seq(t):
